@@ -1188,8 +1188,11 @@ def _f_scn(S, pw, k, t_bulk, recycle, types=None, ducts=1, length=None, ctol=0.0
                               for i in range(len(pw))}},
             'orificing': {'assemblies_to_group': ['fuel'], 'n_groups': k,
                           'value_to_optimize': 'peak coolant temp', 'bulk_coolant_temp': t_bulk,
-                          'iteration_limit': 3, 'convergence_tol': ctol,
-                          'recycle_results': bool(recycle)}}
+                          'iteration_limit': 3, 'convergence_tol': ctol}}
+    if recycle:
+        # (the key is written only when recycling is asked for: without it the documented default - no
+        # recycling - applies)
+        scn['orificing']['recycle_results'] = True
     if regroup:
         # small tolerances: a member within 2 % of the neighbouring group may move, any improvement counts
         scn['orificing'].update({'regroup': regroup, 'regroup_option_tol': 0.02, 'regroup_improvement_tol': 0.0,
